@@ -3,6 +3,7 @@ package main
 import (
 	"fmt"
 	"go/token"
+	"go/types"
 	"strings"
 
 	"golang.org/x/tools/go/ssa"
@@ -27,6 +28,9 @@ func init() {
 	register(&Rule{ID: "C13.6", Prop: "C13", Min: 2,
 		Text: "a write is retried only for the closed-connection sentinel and only after a successful redial: in Push and AsyncCall the path from session.write back to session.write exists only through the true edges of `stat == statConnClosed` and of redialForClient(usedConn)",
 		Run:  runC13_6})
+	register(&Rule{ID: "C13.9", Prop: "C13", Min: 3,
+		Text: "a writer never redials under a live reader: the CAS to Redialing that a writer's redialForClient call can reach (Push, AsyncCall: resolved through the constant flag they pass) starts only from {PassiveClosed, RedialFailed}; the one the reader reaches at the end of readDisconnected starts from PassiveClosing - from Ok or PassiveClosing a writer's redial is followed by the old reader cancelling the re-sent calls and closing the new connection",
+		Run:  runC13_9})
 	register(&Rule{ID: "C13.7", Prop: "C13", Min: 1,
 		Text: "redial is enabled exactly when configured: Dial installs session.redialForClientLocked only on the RedialTimes() != 0 edge (Health() and redialForClient treat a nil function as 'no redial')",
 		Run:  runC13_7})
@@ -338,7 +342,8 @@ func runC13_4(c *Ctx) {
 	_, lockIdx := p.FieldIndex(Root, "session", "lock")
 	try := p.MethodObj(Root, "session", "tryChangeStatus")
 	getConn := p.MethodObj(Root, "session", "getConn")
-	var nilTest, lockCall, idTest, cas, dial ssa.Instruction
+	var nilTest, lockCall, idTest, dial ssa.Instruction
+	var cass []*ssa.Call
 	for _, e := range NilCmpEdges(fn, func(v ssa.Value) bool { return isFieldLoad(v, sessN, rfIdx) }) {
 		nilTest = e.If
 		// nil edge returns false
@@ -349,25 +354,53 @@ func runC13_4(c *Ctx) {
 				lockCall = i
 			}
 			if CalleeObj(call) == try {
-				cas = i
+				cass = append(cass, call)
 			}
 			if !call.Call.IsInvoke() && isFieldLoad(call.Call.Value, sessN, rfIdx) {
 				dial = i
 			}
 		}
-		if bo, ok := i.(*ssa.BinOp); ok && bo.Op == token.NEQ {
-			if call, isC := bo.Y.(*ssa.Call); isC && CalleeObj(call) == getConn && bo.X == ssa.Value(fn.Params[1]) {
-				idTest = i
+	})
+	for _, ee := range EqEdges(fn) {
+		if call, isC := ee.Y.(*ssa.Call); isC && CalleeObj(call) == getConn && ee.X == ssa.Value(fn.Params[1]) {
+			idTest = ee.If
+		}
+	}
+	ok := nilTest != nil && lockCall != nil && idTest != nil && len(cass) > 0 && dial != nil &&
+		Dominates(nilTest, lockCall) && Dominates(lockCall, idTest)
+	if ok {
+		for _, cas := range cass {
+			if !Dominates(idTest, cas) {
+				ok = false
 			}
 		}
-	})
-	ok := nilTest != nil && lockCall != nil && idTest != nil && cas != nil && dial != nil &&
-		Dominates(nilTest, lockCall) && Dominates(lockCall, idTest) && Dominates(idTest, cas) && Dominates(cas, dial)
-	// dial only on the CAS success edge
+	}
+	// dial only on the success edge of the CAS (one CAS, or one per kind of caller merged in a phi)
 	if ok {
 		ok = false
-		for _, e := range CondCallEdges(fn, try) {
-			if BlockDominatesInstr(e.True, dial) {
+		isCasResult := func(v ssa.Value) bool {
+			for _, o := range valueOrigins(v) {
+				call, isC := o.(*ssa.Call)
+				if !isC || CalleeObj(call) != try {
+					return false
+				}
+			}
+			return true
+		}
+		for _, b := range fn.Blocks {
+			ifi, isIf := b.Instrs[len(b.Instrs)-1].(*ssa.If)
+			if !isIf {
+				continue
+			}
+			cv, neg := stripNot(ifi.Cond)
+			if !isCasResult(cv) {
+				continue
+			}
+			t := b.Succs[0]
+			if neg {
+				t = b.Succs[1]
+			}
+			if BlockDominatesInstr(t, dial) {
 				ok = true
 			}
 		}
@@ -609,4 +642,97 @@ func runWrittenCallStatusOK(c *Ctx) {
 	c.fact("path-search(last-store tracking)")
 	c.Check(bad == "" && reached > 0, "AsyncCall: a written call keeps an OK status", p.Pos(fn.Pos()), fmt.Sprintf("every path to postWriteCall has cmd.stat known OK (%d states)", len(seen)),
 		"AsyncCall can consider a call written while cmd.stat still holds a non-OK or unchecked status: "+bad+" - the reply for that call is then refused as 'already completed' and a disconnect does not cancel it: the call never completes")
+}
+
+func runC13_9(c *Ctx) {
+	p := c.P
+	st := p.statusTable()
+	fn := p.Fn(Root, "session", "redialForClient")
+	redial := p.MethodObj(Root, "session", "redialForClient")
+	try := p.MethodObj(Root, "session", "tryChangeStatus")
+	rd := p.Fn(Root, "session", "readDisconnected")
+	// CAS calls to Redialing with their constant sources and the flag value under which they are reachable
+	type casInfo struct {
+		call  *ssa.Call
+		mask  uint32
+		param int  // index of the bool parameter guarding it (-1: none)
+		when  bool // value of that parameter on the guarding edge
+	}
+	var cass []casInfo
+	for _, call := range CallsTo(fn, try) {
+		cc := call.(*ssa.Call)
+		args := CallArgs(cc)
+		to, _ := ConstIntOf(args[0])
+		if st.name[to] != "statusRedialing" {
+			continue
+		}
+		vals, okv := VariadicInts(args[1])
+		if !okv {
+			c.Undec("redialForClient CAS sources", p.InstrPos(cc), "the sources of the CAS to Redialing are not a constant list")
+			return
+		}
+		ci := casInfo{call: cc, param: -1}
+		for _, v := range vals {
+			ci.mask |= 1 << st.bits[v]
+		}
+		for k, prm := range fn.Params {
+			if b, isB := prm.Type().Underlying().(*types.Basic); !isB || b.Kind() != types.Bool {
+				continue
+			}
+			for _, blk := range fn.Blocks {
+				ifi, isIf := blk.Instrs[len(blk.Instrs)-1].(*ssa.If)
+				if !isIf {
+					continue
+				}
+				cv, neg := stripNot(ifi.Cond)
+				if cv != ssa.Value(prm) {
+					continue
+				}
+				if BlockDominatesInstr(blk.Succs[0], cc) {
+					ci.param, ci.when = k, !neg
+				}
+				if BlockDominatesInstr(blk.Succs[1], cc) {
+					ci.param, ci.when = k, neg
+				}
+			}
+		}
+		cass = append(cass, ci)
+	}
+	if len(cass) == 0 {
+		c.Undec("redialForClient CAS sources", p.Pos(fn.Pos()), "no CAS to Redialing found in redialForClient")
+		return
+	}
+	readerLive := st.mask("statusOk", "statusPassiveClosing")
+	n := 0
+	for _, caller := range p.ShippedFuncs() {
+		for _, call := range CallsTo(caller, redial) {
+			n++
+			fromReader := EnclosingTop(caller) == rd
+			var reach uint32
+			for _, ci := range cass {
+				if ci.param >= 0 {
+					// receiver is Args[0]
+					arg := call.Common().Args[ci.param]
+					if cst, isC := arg.(*ssa.Const); isC && cst.Value != nil {
+						if (cst.Value.String() == "true") != ci.when {
+							continue
+						}
+					}
+				}
+				reach |= ci.mask
+			}
+			key := "redial trigger in " + FnName(caller)
+			c.fact("constants+dominance")
+			if fromReader {
+				c.Check(reach&st.mask("statusPassiveClosing") != 0, key, p.InstrPos(call), "the reader redials from "+st.names(reach)+" (PassiveClosing is the state it entered itself)",
+					"the reader's redial cannot start from PassiveClosing (only from "+st.names(reach)+"): a lost connection is never redialed")
+			} else {
+				c.Check(reach&readerLive == 0 && reach != 0, key, p.InstrPos(call), "a writer redials only from "+st.names(reach),
+					"a writer's redial can start from "+st.names(reach&readerLive)+": the reader of the old connection is still alive (it has not noticed the loss, or is waiting for handlers before it drains) - when it resumes it cancels the calls re-sent on the new connection and closes the new socket")
+			}
+		}
+	}
+	if n < 3 {
+		c.Undec("redial triggers", "", fmt.Sprintf("found %d callers of redialForClient, expected >= 3", n))
+	}
 }
